@@ -60,6 +60,13 @@ type Model struct {
 	pty    *os.File
 	rows   int
 	cols   int
+	// replies are the answers to the child's queries that are waiting to
+	// be written to the pty
+	replies struct {
+		sync.Mutex
+		buf   []byte
+		ready chan struct{}
+	}
 
 	eventHandler func(vaxis.Event)
 	events       chan vaxis.Event
@@ -165,7 +172,11 @@ func (vt *Model) StartWithSize(cmd *exec.Cmd, width int, height int) error {
 
 	vt.resize(width, height)
 	vt.parser = ansi.NewParser(vt.pty)
+	vt.replies.ready = make(chan struct{}, 1)
+	closed := make(chan struct{})
+	go vt.writeReplies(vt.pty, closed)
 	go func() {
+		defer close(closed)
 		defer vt.recover()
 		for {
 			select {
@@ -305,6 +316,52 @@ func (vt *Model) update(seq ansi.Sequence) {
 		}
 	case ansi.APC:
 		vt.postEvent(EventAPC{Payload: seq.Data})
+	}
+}
+
+// maxReplies is the number of bytes of replies that may be waiting for the
+// child to read them
+const maxReplies = 1 << 20
+
+// reply answers a query of the child. The child may not be reading its
+// input: a write to the pty can block for as long as it does not, and here it
+// would do so with the lock held and on the only goroutine that reads the
+// child's output. The answers are queued and written by writeReplies. A
+// child that has left maxReplies bytes unread loses further answers
+func (vt *Model) reply(s string) {
+	if vt.replies.ready == nil {
+		// no child was started
+		vt.pty.WriteString(s)
+		return
+	}
+	vt.replies.Lock()
+	if len(vt.replies.buf)+len(s) > maxReplies {
+		vt.replies.Unlock()
+		log.Error("[term] child is not reading, reply dropped")
+		return
+	}
+	vt.replies.buf = append(vt.replies.buf, s...)
+	vt.replies.Unlock()
+	select {
+	case vt.replies.ready <- struct{}{}:
+	default:
+	}
+}
+
+// writeReplies writes the queued replies to the pty until the terminal is
+// closed
+func (vt *Model) writeReplies(pty *os.File, closed chan struct{}) {
+	for {
+		select {
+		case <-vt.replies.ready:
+			vt.replies.Lock()
+			buf := vt.replies.buf
+			vt.replies.buf = nil
+			vt.replies.Unlock()
+			pty.Write(buf)
+		case <-closed:
+			return
+		}
 	}
 }
 
